@@ -1306,6 +1306,8 @@ class Interp:
         """record a write to a pre-existing (old) object: a frame event.  Writes to instance attributes that are not part
         of the object's public state (its `_params`, meta, visual) are recorded as `cache` writes: they cannot by themselves
         break "inputs are left unchanged" and are judged by their observable effect instead"""
+        if self.loading:
+            return        # module initialisation (e.g. registry registration at import), not an effect of the operation
         if getattr(target, 'old', False):
             kind = 'frame'
             owner = getattr(target, 'owner', None)
